@@ -66,7 +66,7 @@ theorem no_accepted_arity_raises_typeError (cfg : Cfg) (f : Callable σ β)
     (hsyn : cfg.synth = cfg.callSite) (n : Nat) (s : σ)
     (hrej : ∀ i, i ≤ cfg.maxLimit → f.accepts (n - i) = false) :
     wrapper cfg f .fresh s n =
-      ⟨.raise .typeError, ⟨false, cfg.maxLimit⟩, s, probes n 0 (cfg.maxLimit + 1)⟩ := by
+      ⟨.raise .typeError, ⟨false, cfg.maxLimit⟩, s, probes n 0 (cfg.maxLimit + 1), []⟩ := by
   have := probeLoop_spec_reject cfg f hsyn n cfg.maxLimit 0 s [] (by omega) (fun i _ h => hrej i h)
   simpa [wrapper, WState.fresh] using this
 
@@ -248,6 +248,89 @@ theorem body_exceptions_propagate (cfg : Cfg) (f : Callable σ RetVal)
     have := (sticky_arity cfg f n j s).2.2 hacc
     rw [this.1]; rfl
 
+/-! ## nested wrappers: a TypeError raised below the action's own frame -/
+
+/-- an action whose body runs another wrapped action (`Nest`) is a Python-level callable as soon as its body's
+    frame is not the wrapper's call line — whatever the inner callable does and wherever its exceptions are
+    raised, in particular at the *inner* wrapper's call line. -/
+theorem nest_pyLevel {τ γ : Type} (cfg : Cfg) (N : Nest τ γ β) (hbf : N.bodyFrame ≠ cfg.synth) :
+    PyLevel cfg (N.toCallable cfg) := by
+  intro s k e fr h
+  simp only [Nest.toCallable] at h
+  split at h
+  · cases h; exact ⟨_, _, rfl, hbf⟩
+  · split at h
+    · split at h
+      · cases h
+      · cases h; exact ⟨_, _, rfl, hbf⟩
+    · cases h; exact ⟨_, _, rfl, hbf⟩
+    · cases h; exact ⟨_, _, rfl, hbf⟩
+
+/-- **nested_probe_failure_traceback**: the dangerous traceback really occurs.  When no argument count binds at
+    the inner wrapper, the `TypeError` is raised at the inner wrapper's call line: it reaches the outer wrapper
+    with a traceback whose *last* entry is `pa_call_line_synth` (a rule looking at the innermost frame would take it
+    for an arity probe of the OUTER action), while the entry the code looks at — the second one — is the body's
+    frame, so `isArityError` says no.  The inner callable's state is untouched (its body never ran). -/
+theorem nested_probe_failure_traceback {τ γ : Type} (cfg : Cfg) (N : Nest τ γ β)
+    (hsyn : cfg.synth = cfg.callSite) (hbf : N.bodyFrame ≠ cfg.synth) (k m : Nat) (s : NState τ)
+    (hm : N.innerArgs k = some m) (hnf : s.1.found = false) (hl : s.1.limit ≤ cfg.maxLimit)
+    (hrej : ∀ i, s.1.limit ≤ i → i ≤ cfg.maxLimit → N.inner.accepts (m - i) = false) :
+    let fr := N.bodyFrame :: (N.glue ++ [cfg.callSite])
+    ((N.toCallable cfg).body s k).1 = .raise .typeError fr ∧
+    fr.getLast? = some cfg.synth ∧ isArityError cfg fr = false ∧
+    ((N.toCallable cfg).body s k).2.2.1 = s.2.1 := by
+  have hw : wrapper cfg N.inner s.1 s.2.1 m =
+      ⟨.raise .typeError, ⟨false, cfg.maxLimit⟩, s.2.1, [] ++ probes m s.1.limit (cfg.maxLimit - s.1.limit + 1), []⟩ := by
+    simp only [wrapper, hnf]
+    exact probeLoop_spec_reject cfg N.inner hsyn m (cfg.maxLimit - s.1.limit) s.1.limit s.2.1 [] (by omega) hrej
+  refine ⟨?_, ?_, ?_, ?_⟩
+  · simp [Nest.toCallable, hm, hw]
+  · rw [hsyn, ← List.cons_append, List.getLast?_append]; simp
+  · simp [isArityError_cons, hbf]
+  · simp [Nest.toCallable, hm, hw]
+
+/-- **nested_typeError_not_arity_probe** (every wrapper state the code can reach, every inner callable, any glue
+    frames, any nesting depth — `N.inner` may itself be a `Nest`): if the nested wrapped call raises `TypeError`
+    (for instance because nothing binds there, `nested_probe_failure_traceback`), the outer wrapper does not take
+    it for an arity mismatch of the outer action: the outer body is entered exactly once, the inner wrapper is
+    invoked exactly once, and `TypeError` is what leaves the wrapper and `parse_string`. -/
+theorem nested_typeError_not_arity_probe {τ γ : Type} (cfg : Cfg) (N : Nest τ γ RetVal)
+    (hsyn : cfg.synth = cfg.callSite) (hbf : N.bodyFrame ≠ cfg.synth)
+    (n j m : Nat) (st : WState) (s : NState τ) (cur : Toks)
+    (hfound : st.found = true → j = st.limit) (hlj : st.limit ≤ j) (hj : j ≤ cfg.maxLimit)
+    (hrej : ∀ i, st.limit ≤ i → i < j → N.accepts (n - i) = false)
+    (hacc : N.accepts (n - j) = true) (hm : N.innerArgs (n - j) = some m)
+    (hT : (wrapper cfg N.inner s.1 s.2.1 m).out = .raise .typeError) :
+    let r := wrapper cfg (N.toCallable cfg) st s n
+    runsOf r.evs = [n - j] ∧
+    parseStringOut (actionStep cur r.out) = .raises .typeError ∧
+    r.cs.2.2 = s.2.2 ++ [(wrapper cfg N.inner s.1 s.2.1 m).evs] := by
+  intro r
+  have hraise : ((N.toCallable cfg).body s (n - j)).1 =
+      .raise .typeError (N.bodyFrame :: (N.glue ++ cfg.callSite :: (wrapper cfg N.inner s.1 s.2.1 m).fr)) := by
+    simp [Nest.toCallable, hm, hT]
+  have hcs : ((N.toCallable cfg).body s (n - j)).2.2.2 = s.2.2 ++ [(wrapper cfg N.inner s.1 s.2.1 m).evs] := by
+    simp only [Nest.toCallable, hm]
+    split <;> rfl
+  have h := body_exceptions_propagate cfg (N.toCallable cfg) hsyn (nest_pyLevel cfg N hbf) n j st s
+    .typeError _ cur hfound hlj hj hrej hacc hraise
+  refine ⟨h.2.1, h.1, ?_⟩
+  -- the callable's state after the wrapper is the state after that single body run
+  have hstate : r.cs = ((N.toCallable cfg).body s (n - j)).2 := by
+    cases hf : st.found with
+    | true =>
+      have hjl := hfound hf
+      have hst : st = ⟨true, j⟩ := by cases st; simp_all
+      subst hst
+      exact ((sticky_arity cfg (N.toCallable cfg) n j s).2.2 hacc).2
+    | false =>
+      have hr : r = finish n j ((N.toCallable cfg).body s (n - j)) ([] ++ probes n st.limit (j - st.limit)) := by
+        simp only [r, wrapper, hf]
+        exact probeLoop_spec_accept cfg (N.toCallable cfg) hsyn (nest_pyLevel cfg N hbf) n (j - st.limit)
+          st.limit j s [] (by omega) hj hrej hacc
+      rw [hr]; unfold finish; split <;> rfl
+  rw [hstate, hcs]
+
 /-! ## return values -/
 
 /-- **none_keeps_tokens / value_replaces**: with the body returning `v` on its single run, `parse_string`
@@ -324,5 +407,45 @@ def exC : Callable Unit RetVal :=
 example : (wrapper liveCfg exC .fresh () 3).evs = [.probe 3, .run 2, .run 1, .run 0] := by
   simp [wrapper, WState.fresh, probeLoop, callFn, exC, isArityError, liveCfg, Gen.synthLine, Gen.callLine,
     Gen.sameFile, Gen.maxLimit]
+
+/-- nested wrappers: outer `def f(t): return inner.parse_string(t[0])`, the inner element's action has a signature
+    pyparsing cannot satisfy (nothing binds).  The outer body runs once with 1 argument, the inner wrapper makes its
+    four probes, `TypeError` leaves — although the innermost traceback entry is the wrapper's call line. -/
+def exNest : Nest Unit RetVal RetVal :=
+  ⟨fun k => k == 1, (7, 30), [(0, 1200), (0, 900)], ⟨fun _ => false, fun s _ => (.ret .none, s)⟩,
+   fun _ => some 3, fun _ => .other 0, fun _ => .inl .none⟩
+example :
+    let r := wrapper liveCfg (exNest.toCallable liveCfg) .fresh (.fresh, (), []) 3
+    r.evs = [.probe 3, .probe 2, .run 1] ∧ r.out = .raise .typeError ∧
+    r.fr.getLast? = some liveCfg.synth ∧ r.cs.1 = ⟨false, 3⟩ := by
+  intro r
+  have hb := nested_probe_failure_traceback liveCfg exNest live_call_line.1 (by decide) 1 3 (.fresh, (), [])
+    rfl rfl (by decide) (fun _ _ _ => rfl)
+  have hr : r = finish 3 2 ((exNest.toCallable liveCfg).body (.fresh, (), []) 1) (probes 3 0 2) :=
+    called_once_with_trailing_args liveCfg _ live_call_line.1 (nest_pyLevel liveCfg exNest (by decide)) 3 2 _
+      (by decide) (by intro i hi; have : i = 0 ∨ i = 1 := by omega
+                      rcases this with h | h <;> subst h <;> rfl) rfl
+  have hw : wrapper liveCfg exNest.inner WState.fresh () 3 =
+      ⟨.raise .typeError, ⟨false, liveCfg.maxLimit⟩, (), probes 3 0 (liveCfg.maxLimit + 1), []⟩ :=
+    no_accepted_arity_raises_typeError liveCfg exNest.inner live_call_line.1 3 () (fun _ _ => rfl)
+  refine ⟨?_, ?_, ?_, ?_⟩
+  · rw [hr]; unfold finish; rw [hb.1]; rfl
+  · rw [hr]; unfold finish; rw [hb.1]
+  · rw [hr]; unfold finish; rw [hb.1]; exact hb.2.1
+  · rw [hr]; unfold finish; rw [hb.1]
+    show ((exNest.toCallable liveCfg).body (WState.fresh, (), []) 1).2.1 = _
+    simp only [Nest.toCallable, exNest]
+    rw [show wrapper liveCfg (⟨fun _ => false, fun s _ => (BodyRes.ret RetVal.none, s)⟩ : Callable Unit RetVal)
+          WState.fresh () 3 = _ from hw]
+    rfl
+/-- the hypotheses of `nested_typeError_not_arity_probe` are met by it (j = 2, m = 3) -/
+example : runsOf (wrapper liveCfg (exNest.toCallable liveCfg) .fresh (.fresh, (), []) 3).evs = [1] :=
+  (nested_typeError_not_arity_probe liveCfg exNest live_call_line.1 (by decide) 3 2 3 .fresh (.fresh, (), [])
+    .matched (by simp [WState.fresh]) (by simp [WState.fresh]) (by decide)
+    (by intro i _ hi; have : i = 0 ∨ i = 1 := by omega
+        rcases this with h | h <;> subst h <;> rfl) rfl rfl
+    (by rw [show wrapper liveCfg exNest.inner (WState.fresh, (), ([] : List (List Ev))).1
+              (WState.fresh, (), ([] : List (List Ev))).2.1 3 = _ from
+            no_accepted_arity_raises_typeError liveCfg exNest.inner live_call_line.1 3 () (fun _ _ => rfl)])).1
 
 end PP.TrimArity
